@@ -1390,7 +1390,7 @@ func Run(c *hx.Ctx) error {
 	// the planner against its model
 	nPlans := 600
 	if thorough {
-		nPlans = 12000
+		nPlans = 6000
 	}
 	if part := c.Arg("part", ""); part == "" || part == "plan" {
 		runPlans(c, hx.NewRng(c.Seed^0x706c616e), nPlans)
